@@ -31,7 +31,10 @@ def statics_used(fn):
 
 
 def run(ctx):
+    ctx.exhaustive = False
+    ctx.exhaustive_note = 'per-type checks complete over each cycle; carries and lunar stepping on listed sample points'
     from rules import shared
+    ctx.include('effect_inventory', shared.effect_inventory)   # no new process-wide mutable state (MIR statics inventory)
     ctx.include('month_records', shared.month_records)   # leap table, solstice anchor, month memo, memo cells (shared, cached per source hash)
     I = ctx.interp(fuel=80000000)
     t = T(I)
